@@ -230,6 +230,15 @@ class World(object):
         if kind == "file":
             f = seam.real_open(path, "rb")
             f.seek(off)
+        elif kind == "rwfile":
+            # a read/write stream the caller has just written (w+b, e.g. tempfile.TemporaryFile):
+            # part of the content may still sit in the caller's write buffer, offset = end
+            self._rw = getattr(self, "_rw", 0) + 1
+            f = seam.real_open(os.path.join(self.input_dir, "rw%s%d_%d" % (prefix, idx, self._rw)), "w+b")
+            step = max(1, min(len(content), 700 + 13 * (short or 0)))
+            for i in range(0, len(content), step):
+                f.write(content[i:i + step])
+            off = len(content)
         elif kind == "mem":
             f = SimStream(content, short_seed=short, offset=off)
         elif kind == "bytesio":
